@@ -774,7 +774,10 @@ Handler::ArgResult
                        noexcept( false)
 {
 
-   auto  p_arg_hdl = mSubGroupArgs.findArg( key);
+   // an argument with exactly this key always wins, also when the key is an
+   // (ambiguous) abbreviation of sub-group arguments
+   auto  p_arg_hdl = (mArguments.findExactArg( key) != nullptr) ? nullptr
+      : mSubGroupArgs.findArg( key);
 
 
    if ((p_arg_hdl != nullptr) && !(p_arg_hdl->key() == key))
